@@ -29,6 +29,9 @@ type c09Msg struct {
 }
 
 func (m c09Msg) in() inMsg {
+	if m.Type == "TO" {
+		return inMsg{err: timeoutErr{}} // a transient receive timeout
+	}
 	from := netip.MustParseAddr("fe80::1").WithZone("eth0")
 	var msg ndp.Message
 	switch m.Type {
@@ -146,6 +149,9 @@ func c09Check(c c09Case, x *vsched.Exec, res *c09Result) (out [][2]string) {
 	wantRecv := map[string]float64{}
 	wantUnicast := 0
 	for _, m := range c.Seq {
+		if m.Type == "TO" {
+			continue
+		}
 		switch {
 		case valid(m):
 			wantRecv[m.typeLabel()]++
@@ -163,6 +169,27 @@ func c09Check(c c09Case, x *vsched.Exec, res *c09Result) (out [][2]string) {
 		got, _ := sample(res.series, msgInvalid, "interface=eth0,message="+typ)
 		if got != wantInvalid[typ] {
 			bad("C09:invalid-counter", "messages_received_invalid_total{%s} = %v, want %v", typ, got, wantInvalid[typ])
+		}
+	}
+	// Responsiveness: every message is read within the legitimate receive back-off
+	// (at most 4 timeouts here; their waits 0+50+100+150 ms may add up to 300 ms).
+	var injT, readT []time.Duration
+	for _, e := range x.Log {
+		if e.Kind == "inject" && !strings.Contains(e.Detail, "error") {
+			injT = append(injT, e.T)
+		}
+		if e.Kind == "read" {
+			readT = append(readT, e.T)
+		}
+	}
+	for i := range injT {
+		if i >= len(readT) {
+			bad("C09:message-not-read", "message %d injected at %s was never read", i, injT[i])
+			break
+		}
+		if d := readT[i] - injT[i]; d > 310*time.Millisecond {
+			bad("C09:listener-stalled", "message %d injected at %s was read %s later (the receive back-off adds up to at most 300ms here)", i, injT[i], d)
+			break
 		}
 	}
 	if c.Monitor {
@@ -213,7 +240,7 @@ func c09Run(t *testing.T, c c09Case) (*vsched.Exec, [][2]string) {
 func TestVerifC09(t *testing.T) {
 	r := ev.Begin("C09", "sequences")
 	defer r.End(t)
-	r.Rule = "message sequences fed to the real advertiser and the real monitor (instrumented, virtual clock, canonical schedule): (a) every single message type {RS,RA,NS,NA} x every hop limit 0..255; (b) all sequences of length<=L over {valid RS, RS hop 64, NS hop 255, RA hop 1} followed by a valid RS, i.e. runs of up to L consecutive invalid messages (retry budget is 5); oracle: invalid counter = number of invalid messages by type, handled/monitor counters = valid ones, one unicast RA per valid RS, Run still running and no re-dial at the end; states = sequences executed; non-trivial = sequence contains an invalid message; distinct = distinct (mode, sequence)"
+	r.Rule = "message sequences fed to the real advertiser and the real monitor (instrumented, virtual clock, canonical schedule): (a) every single message type {RS,RA,NS,NA} x every hop limit 0..255; (b) all sequences of length<=L over {valid RS, RS hop 64, NS hop 255, RA hop 1, transient receive timeout (at most 4)} followed by a valid RS, i.e. runs of up to L consecutive invalid messages (retry budget is 5); oracle: invalid counter = number of invalid messages by type, handled/monitor counters = valid ones, one unicast RA per valid RS, every message read within 310ms of its arrival (receive back-off never grows with invalid traffic), Run still running and no re-dial at the end; states = sequences executed; non-trivial = sequence contains an invalid message; distinct = distinct (mode, sequence)"
 	if r.Replay != nil {
 		var c c09Case
 		if err := json.Unmarshal(r.Replay, &c); err != nil {
@@ -228,9 +255,9 @@ func TestVerifC09(t *testing.T) {
 		}
 		return
 	}
-	L := 6
+	L := 5
 	if r.Thorough() {
-		L = 8
+		L = 7
 	}
 	if s := os.Getenv("VERIF_DEPTH"); s != "" {
 		L, _ = strconv.Atoi(s)
@@ -267,15 +294,22 @@ func TestVerifC09(t *testing.T) {
 				one(c09Case{Monitor: mon, Seq: []c09Msg{{typ, h}, {"RS", 255}}})
 			}
 		}
-		alpha := []c09Msg{{"RS", 255}, {"RS", 64}, {"NS", 255}, {"RA", 1}}
+		alpha := []c09Msg{{"RS", 255}, {"RS", 64}, {"NS", 255}, {"RA", 1}, {"TO", 0}}
 		enum.Sequences(len(alpha), L, func(seq []int) bool {
 			if len(seq) == 0 {
 				return true
 			}
 			var c c09Case
 			c.Monitor = mon
+			nto := 0
 			for _, s := range seq {
 				c.Seq = append(c.Seq, alpha[s])
+				if alpha[s].Type == "TO" {
+					nto++
+				}
+			}
+			if nto > 4 {
+				return true // five timeouts legitimately exhaust the retry budget (C10's subject)
 			}
 			c.Seq = append(c.Seq, c09Msg{"RS", 255})
 			one(c)
